@@ -37,6 +37,7 @@ def main(argv: List[str]) -> int:
             "distinct_handler_type_sites": len(ua.sites),
             "handlers_under_contract": cov["functions"],
             "outside_subset": cov["outside"],
+            "cross_check": cov.get("cross_check"),
             "samples": cov["samples"],
             "notes": run.notes,
         }
